@@ -1,0 +1,5 @@
+//go:build !verif
+
+package peer
+
+func verifYield(string) {}
